@@ -28,6 +28,20 @@ CHECKS = {
 
 NOT_APPLICABLE = []
 
+CHECKS['C02'] = (
+    'bounded exploration of pairs of runs of the real engine on minidb '
+    '(delivery order, action outcomes, guard values, id order as solver '
+    'variables; spec caches dropped / post-commit batches deferred) plus '
+    'symbolic execution of the merge and dispatcher kernels; z3 decides '
+    'every path',
+    'For 6 shapes, two runs with equal outcomes agree on final state, output, '
+    'task states, published variables and inbound contexts for every '
+    'explored order, with cache eviction before every event and with '
+    'deferred post-commit batches; merge_context_by_version is commutative / '
+    'associative under the no-conflict assumption; join commands always '
+    'leave the dispatcher in one global lock order.',
+    '§3 C02')
+
 CHECKS['C01'] = (
     'symbolic execution of the real workflow controller over task rows with '
     'symbolic existence / state / routing (join lemma, differential against '
